@@ -43,6 +43,15 @@ Theorem c14_no_loss_no_dup m maxq acts :
      let s' := run m maxq (acts ++ more) in dr s' = None /\ wire s' = accepted s /\ calls s' = calls s).
 Proof. exact (conj (quiescent_wire m maxq acts) (all_written m maxq acts)). Qed.
 
+(* The crisp form of both: connection open, no socket error, no call in progress, no drainer alive, every WriteMessage /
+   WriteFrame so far returned nil: the wire is exactly the concatenation, in lock order, of the calls' frame sequences. *)
+Theorem c14_whole_messages m maxq acts :
+  let s := run m maxq acts in
+  closed s = false -> failed s = false -> dr s = None -> holder s = None ->
+  Forall (fun c => snd c = ROk) (calls s) ->
+  wire s = concat (map (fun c => fst (fst c)) (calls s)).
+Proof. exact (whole_messages m maxq acts). Qed.
+
 (* One drainer: a second drainer goroutine is never started; in direct mode there is none at all; while the connection
    is open and the socket works a drainer is alive exactly when the queue is non-empty. *)
 Theorem c14_single_drainer m maxq acts :
@@ -123,6 +132,7 @@ Proof. vm_compute. repeat split; discriminate. Qed.
 
 Print Assumptions c14_whole.
 Print Assumptions c14_no_loss_no_dup.
+Print Assumptions c14_whole_messages.
 Print Assumptions c14_single_drainer.
 Print Assumptions c14_closed.
 Print Assumptions c14_order.
